@@ -144,6 +144,7 @@ class DictCell:
         self.born = born
         self.shared = ""
         self.scope = born
+        self.factory: frozenset = E  # defaultdict(factory): what creates the value of a key that is looked up for the first time
 
 
 class ObjCell:
@@ -968,19 +969,26 @@ class Interp:
                 self.collectors.append((self.uncertain, wa))
                 fr.ctrl.append((s.test, True, kind, ce))
                 try:
-                    a = self.exec_block(s.body, dict(env), fr)
+                    a = self.exec_block(s.body, self.narrow(s.test, dict(env), True), fr)
                 finally:
                     fr.ctrl.pop()
                     self.collectors.pop()
                 self.collectors.append((self.uncertain, wc))
                 fr.ctrl.append((s.test, False, kind, ce))
                 try:
-                    c = self.exec_block(s.orelse, dict(env), fr)
+                    c = self.exec_block(s.orelse, self.narrow(s.test, dict(env), False), fr)
                 finally:
                     fr.ctrl.pop()
                     self.collectors.pop()
             finally:
                 self.uncertain -= 1
+            if (a is None) != (c is None):
+                # what follows runs only when the branch that left (returned / raised) was not taken
+                env_after = self.narrow(s.test, dict(c if a is None else a), c is None)
+                if a is None:
+                    c = env_after
+                else:
+                    a = env_after
             if (a is None) != (c is None) and fr.exits != exits:
                 fr.partial_exit += 1
                 # what follows in this block runs only when the branch that left was not taken
@@ -1173,6 +1181,38 @@ class Interp:
             vs = [self.pattern_verdict(x, v, env, fr) for x in pat.patterns]
             return True if True in vs else (False if all(x is False for x in vs) else None)
         return None
+
+    def narrow(self, test: ast.expr, env: dict, positive: bool) -> dict:
+        """Environment of the branch in which `test` is true (positive) / false: `x is None`, `x is not None`, truthiness of a
+        name, `not`, `and` (when true) / `or` (when false) chains remove the alternatives the test excludes."""
+        if isinstance(test, ast.UnaryOp) and isinstance(test.op, ast.Not):
+            return self.narrow(test.operand, env, not positive)
+        if isinstance(test, ast.BoolOp) and ((isinstance(test.op, ast.And) and positive) or (isinstance(test.op, ast.Or) and not positive)):
+            for x in test.values:
+                env = self.narrow(x, env, positive)
+            return env
+        name, none_is_true = None, None
+        if isinstance(test, ast.Compare) and len(test.ops) == 1 and isinstance(test.left, ast.Name) and isinstance(test.comparators[0], ast.Constant) and test.comparators[0].value is None and isinstance(test.ops[0], (ast.Is, ast.IsNot, ast.Eq, ast.NotEq)):
+            name, none_is_true = test.left.id, isinstance(test.ops[0], (ast.Is, ast.Eq))
+        elif isinstance(test, ast.Name):
+            name, none_is_true = test.id, False  # truthy: not None
+            if not positive:
+                return env  # falsy: None, but also empty / zero - nothing to remove
+        if name is None or name not in env:
+            return env
+        keep_none = none_is_true == positive
+        v = env[name]
+        if keep_none:
+            if isinstance(test, ast.Compare):
+                nv = frozenset(sh for sh in v if (isinstance(sh, Const) and sh.value is None) or (isinstance(sh, Sc) and sh.none) or isinstance(sh, (Opaque, Top)))
+                nv = frozenset(Const(None) if isinstance(sh, Sc) else sh for sh in nv)
+            else:
+                nv = v
+        else:
+            nv = frozenset(replace(sh, none=False) if isinstance(sh, Sc) and sh.none else sh for sh in v if not (isinstance(sh, Const) and sh.value is None))
+        if nv:
+            env[name] = nv
+        return env
 
     def early_exit(self, loop: ast.AST) -> ast.AST | None:
         """A `break`, or a `return` inside the loop body (the iteration may stop before the last element)."""
@@ -1824,6 +1864,12 @@ class Interp:
         out = set()
         for sh in base:
             if isinstance(sh, Ref) and sh.kind == "dict":
+                if self.cell(sh).factory and isinstance(e.ctx, ast.Load):
+                    # defaultdict(SomeClass)[key]: a missing key gets a fresh value from the factory
+                    made: set = set()
+                    for f in self.cell(sh).factory:
+                        made |= self.apply(f, [], {}, e, env, fr)
+                    self.store_entry(sh, key, frozenset(made))
                 out |= self.dict_lookup(sh, key, e, fr)
             elif isinstance(sh, Ref) and sh.kind == "coll":
                 fixed = len(key) == 1 and isinstance(next(iter(key)), Const) and isinstance(next(iter(key)).value, int)
@@ -1881,6 +1927,10 @@ class Interp:
             entries = [(k, v) for k, v in entries if not origin(k) or origin(k) == ko]
         for _k, v in entries:
             if lk:
+                # objects kept in a dictionary are handed out as they are (they may be changed through the reference)
+                objs = frozenset(x for x in v if isinstance(x, Ref) and x.kind == "obj")
+                out |= objs
+                v = v - objs
                 out |= self.map_scalars(v, lambda s: s if (lk <= s.assoc or not (s.srcs or s.roles)) else replace(s, assoc=s.assoc | lk), (id(node), fr.inv, "lk", ref.key))
             else:
                 out |= v
@@ -1904,7 +1954,9 @@ class Interp:
                         self.stale_reads.append((self.site(fr, node), self.where(fr, node), name))
                     if self.is_record(c.ci):
                         tag = f"fld:{c.ci.name}.{name}"
-                        v = self.map_scalars(v, lambda s, tag=tag: replace(s, srcs=s.srcs | {tag}), (id(node), fr.inv, "fld"))
+                        # collections held by a record keep their identity (they may be filled through the field)
+                        held = frozenset(x for x in v if isinstance(x, Ref) and x.kind in ("coll", "dict"))
+                        v = held | self.map_scalars(v - held, lambda s, tag=tag: replace(s, srcs=s.srcs | {tag}), (id(node), fr.inv, "fld"))
                     out |= v
                     continue
                 m = self.find_method(c.ci, name) if c.ci is not None else None
@@ -1940,7 +1992,8 @@ class Interp:
             elif isinstance(sh, Lib):
                 out.add(Lib(f"{sh.name}.{name}"))
             elif isinstance(sh, Const):
-                out.add(Sc())
+                if sh.value is not None:  # an attribute of None is an error path
+                    out.add(Sc())
             elif isinstance(sh, Top):
                 out.add(sh)
             elif isinstance(sh, Tup):
@@ -2145,6 +2198,28 @@ class Interp:
             out |= NONE_V
         return out
 
+    def field_default(self, ci: ClassInfo, fname: str, key, fr: Frame | None) -> frozenset | None:
+        """Default of a dataclass / NamedTuple field that the constructor call leaves out: `x: T = expr`,
+        `field(default=expr)`, `field(default_factory=f)` (a fresh value per constructed object)."""
+        owner = next((k for k in self.repo.mro(ci) if fname in k.class_attrs), None)
+        if owner is None:
+            return None
+        ce = owner.class_attrs[fname]
+        mfr = self.module_frame(owner.module, key)
+        if isinstance(ce, ast.Call) and (norm(ce.func) in ("field", "dataclasses.field")):
+            kw = {k.arg: k.value for k in ce.keywords if k.arg}
+            if "default_factory" in kw:
+                out: set = set()
+                for f in self.ev(kw["default_factory"], {}, mfr):
+                    out |= self.apply(f, [], {}, ce, {}, mfr)
+                return frozenset(out)
+            if "default" in kw:
+                return self.ev(kw["default"], {}, mfr)
+            return None
+        if isinstance(ce, ast.Constant) or self.static_expr(owner.module, ce, frozenset({fname}), 0, owner):
+            return self.ev(ce, {}, mfr)
+        return V(Opaque(f"{ci.name}.{fname}"))
+
     def is_generator(self, fi: FuncInfo) -> bool:
         if fi.fq not in self._gen_cache:
             self._gen_cache[fi.fq] = any(isinstance(x, (ast.Yield, ast.YieldFrom)) for x in own_nodes(fi.node))
@@ -2175,6 +2250,11 @@ class Interp:
                     vals[fields[i]] = v
             for k, v in kwargs.items():
                 vals[k] = v
+            for fname in fields:
+                if fname not in vals:
+                    dv = self.field_default(ci, fname, (id(node), inv, "default", fname), fr)
+                    if dv is not None:
+                        vals[fname] = dv
             m = self.link_mark([self.scalars(v, into_colls=False) for v in vals.values()], fr, node)
             for n, v in vals.items():
                 if m is not None:
@@ -2497,6 +2577,11 @@ class Interp:
             return V(r)
         if name in ("dict", "collections.defaultdict", "collections.OrderedDict", "defaultdict", "OrderedDict"):
             r = self.dict_(key, site)
+            if short == "defaultdict" and args:
+                fac = frozenset(sh for sh in args[0] if isinstance(sh, (Fn, Cls, Partial)) or (isinstance(sh, Lib) and sh.name not in ("list", "set", "dict", "int", "str", "float", "bool", "tuple", "frozenset")))
+                if fac and not self.cell(r).factory:
+                    self.cell(r).factory = fac
+                args = args[1:]
             for a in args:
                 for o in a:
                     if isinstance(o, Ref) and o.kind == "dict":
